@@ -28,10 +28,10 @@ ASSUMPTIONS = [
     "X / x after a modifier in the same body (known finding C01-break-after-modifier-ignored) is not generated here",
 ]
 MIN_COUNTERS = {
-    "exit_depth_checked": {"quick": 1200, "thorough": 20000},
-    "boundary_checks": {"quick": 20000, "thorough": 300000},
-    "public_compared": {"quick": 800, "thorough": 14000},
-    "programs_with_break": {"quick": 500, "thorough": 9000},
+    "exit_depth_checked": {"quick": 1200, "thorough": 12000},
+    "boundary_checks": {"quick": 20000, "thorough": 150000},
+    "public_compared": {"quick": 800, "thorough": 8000},
+    "programs_with_break": {"quick": 500, "thorough": 6000},
     "exhaustive_exit_programs": {"quick": 3000, "thorough": 3000},
 }
 UNIT_TIMEOUT = 150
@@ -110,7 +110,7 @@ def exh_programs(outer):
 
 
 def units(tier, seed):
-    n_units = 120 if tier == "quick" else 1600
+    n_units = 120 if tier == "quick" else 500
     u = [{"kind": "random", "seed": seed, "idx": i, "n": 60 if tier == "quick" else 100} for i in range(n_units)]
     for outer in _constructs():
         u.append({"kind": "exh", "outer": outer})
